@@ -1,0 +1,64 @@
+//go:build verif && verif_fiat
+
+package secp256k1
+
+// Verification hooks (build tags `verif` and `verif_fiat`): raw
+// limb-level fiat entry points of both moduli and the saturated
+// reduction helpers.  Expose-only; never called by library code.
+
+import (
+	fiat "gitlab.com/yawning/secp256k1-voi/internal/fiat/secp256k1montgomeryscalar"
+	"gitlab.com/yawning/secp256k1-voi/internal/field"
+)
+
+// VerifFieldPow3mod4 exposes field.Element.pow3mod4.
+func VerifFieldPow3mod4(z, x *VerifFieldElement) *VerifFieldElement { return z.VerifPow3mod4(x) }
+
+// VerifFieldSetShortBytes exposes field.Element.setShortBytes.
+func VerifFieldSetShortBytes(z *VerifFieldElement, src []byte) *VerifFieldElement {
+	return z.VerifSetShortBytes(src)
+}
+
+// VerifFieldReduceSaturated exposes field.reduceSaturated.
+func VerifFieldReduceSaturated(dst, src *[4]uint64) uint64 {
+	return field.VerifReduceSaturated(dst, src)
+}
+
+// VerifFiatField exposes the raw fiat entry points of the base field.
+func VerifFiatField(op string, out, a, b *[4]uint64, c uint64) bool {
+	return field.VerifFiat(op, out, a, b, c)
+}
+
+// VerifScalarReduceSaturated exposes the scalar reduceSaturated.
+func VerifScalarReduceSaturated(dst, src *[4]uint64) uint64 {
+	return reduceSaturated(dst, src)
+}
+
+// VerifFiatScalar exposes the raw fiat entry points of the scalar field.
+func VerifFiatScalar(op string, out, a, b *[4]uint64, c uint64) bool {
+	switch op {
+	case "mul":
+		fiat.Mul((*fiat.MontgomeryDomainFieldElement)(out), (*fiat.MontgomeryDomainFieldElement)(a), (*fiat.MontgomeryDomainFieldElement)(b))
+	case "square":
+		fiat.Square((*fiat.MontgomeryDomainFieldElement)(out), (*fiat.MontgomeryDomainFieldElement)(a))
+	case "add":
+		fiat.Add((*fiat.MontgomeryDomainFieldElement)(out), (*fiat.MontgomeryDomainFieldElement)(a), (*fiat.MontgomeryDomainFieldElement)(b))
+	case "sub":
+		fiat.Sub((*fiat.MontgomeryDomainFieldElement)(out), (*fiat.MontgomeryDomainFieldElement)(a), (*fiat.MontgomeryDomainFieldElement)(b))
+	case "opp":
+		fiat.Opp((*fiat.MontgomeryDomainFieldElement)(out), (*fiat.MontgomeryDomainFieldElement)(a))
+	case "tomont":
+		fiat.ToMontgomery((*fiat.MontgomeryDomainFieldElement)(out), (*fiat.NonMontgomeryDomainFieldElement)(a))
+	case "frommont":
+		fiat.FromMontgomery((*fiat.NonMontgomeryDomainFieldElement)(out), (*fiat.MontgomeryDomainFieldElement)(a))
+	case "selectznz":
+		fiat.Selectznz(out, fiat.Uint64ToUint1(c), a, b)
+	case "nonzero":
+		fiat.Nonzero(&out[0], a)
+	case "setone":
+		fiat.SetOne((*fiat.MontgomeryDomainFieldElement)(out))
+	default:
+		return false
+	}
+	return true
+}
